@@ -73,6 +73,7 @@ func cmdCheck(args []string) int {
 	update := fs.Bool("update-expected", false, "rewrite expected/<id>.txt from this run")
 	verbose := fs.Bool("v", false, "verbose")
 	noEvidence := fs.Bool("no-evidence", false, "do not write evidence (selftest runs)")
+	replayDirFlag := fs.String("replay-dir", "", "directory for replay files (default <verif>/replays)")
 	fs.Parse(args)
 	t0 := time.Now()
 	seed := 0
@@ -118,7 +119,7 @@ func cmdCheck(args []string) int {
 		if sp.SSAName == "" || !contains(sp.Props, *prop) || sp.Trusted {
 			continue
 		}
-		targets = append(targets, Target{Name: sp.SSAName, Spec: sp})
+		targets = append(targets, Target{Name: sp.Key(), Spec: sp})
 	}
 	for k, l := range p.lemmas {
 		if contains(l.Props, *prop) && l.Fn != nil {
@@ -183,7 +184,7 @@ func cmdCheck(args []string) int {
 				continue
 			}
 			nq++
-			hyps := append([]*Term{}, r.Exec.assumes[:o.NHyp]...)
+			hyps := relevantHyps(r.Exec.assumes[:o.NHyp], o.PC)
 			asserts := append(hyps, o.PC, Not(o.Goal))
 			var gv []*Term
 			for _, in := range o.Inputs {
@@ -194,15 +195,19 @@ func cmdCheck(args []string) int {
 				}
 			}
 			script := "; " + o.Name + "\n" + Script(asserts, gv, r.Opaque)
+			weak := "; " + o.Name + " (recursive functions unfolded)\n" + ScriptOpt(asserts, gv, r.Opaque, true)
+			if !strings.Contains(script, "define-fun-rec") {
+				weak = ""
+			}
 			if len(script) > 8<<20 {
 				o.Status = "unknown"
 				o.Result = &SolveResult{Verdict: "unknown", Output: "VC larger than 8 MB"}
 				continue
 			}
 			wg.Add(1)
-			go func(ti, oi int, o *Obligation, script string) {
+			go func(ti, oi int, o *Obligation, script, weak string) {
 				defer wg.Done()
-				res := Solve(script, smtDir, fmt.Sprintf("t%d_o%d", ti, oi), timeout)
+				res := Solve2(script, weak, smtDir, fmt.Sprintf("t%d_o%d", ti, oi), timeout)
 				mu.Lock()
 				solverSecs += res.Secs
 				mu.Unlock()
@@ -215,11 +220,38 @@ func cmdCheck(args []string) int {
 				default:
 					o.Status = "unknown"
 				}
-			}(ti, oi, o, script)
+			}(ti, oi, o, script, weak)
 		}
 	}
 	wg.Wait()
+	replayDirOverride = *replayDirFlag
 	return report(p, *verif, *prop, *tier, seed, pc, results, t0, tLoad, solverSecs, nq, *update, *verbose, scratch, *noEvidence)
+}
+
+// relevantHyps drops the assumptions guarded by a path condition that contradicts pc on a
+// literal (facts about other paths): dropping hypotheses is always sound.
+func relevantHyps(assumes []*Term, pc *Term) []*Term {
+	lits := map[int]bool{}
+	for _, c := range conj(pc) {
+		lits[c.id] = true
+	}
+	out := make([]*Term, 0, len(assumes))
+	for _, h := range assumes {
+		if h.Op == OImp {
+			skip := false
+			for _, g := range conj(h.Args[0]) {
+				if lits[Not(g).id] {
+					skip = true
+					break
+				}
+			}
+			if skip {
+				continue
+			}
+		}
+		out = append(out, h)
+	}
+	return out
 }
 
 func contains(xs []string, s string) bool {
@@ -260,6 +292,9 @@ func runTarget(p *Loaded, t Target, selRet int) (res *TargetResult) {
 		if r := recover(); r != nil {
 			if u, ok := r.(Unsupported); ok {
 				res.Err = "out of subset: " + u.Msg + " (in " + x.funcName() + ")"
+				if os.Getenv("GOVC_TRACE") != "" {
+					res.Err += "\n" + string(debug.Stack())
+				}
 				return
 			}
 			res.Err = fmt.Sprintf("engine panic: %v\n%s", r, debug.Stack())
@@ -268,7 +303,7 @@ func runTarget(p *Loaded, t Target, selRet int) (res *TargetResult) {
 	x.st = &State{pc: True(), heap: &Heap{m: map[*Object]Value{}}, regs: map[ssa.Value]Value{}, iters: map[*ssa.BasicBlock]int{}, inLoop: map[*ssa.BasicBlock]*loopCut{}}
 	var h *ssa.Function
 	if t.Spec != nil {
-		h = p.harnessOf[t.Spec.SSAName]
+		h = p.harnessOf[t.Spec.Key()]
 		if h == nil {
 			res.Err = "contract unbound: no harness generated for " + t.Spec.Name
 			return
@@ -280,6 +315,7 @@ func runTarget(p *Loaded, t Target, selRet int) (res *TargetResult) {
 			x.shapeLen[k] = v
 		}
 		x.harness = t.Spec.SSAName
+		x.behavior, x.behaviorFn, x.noSafety = t.Spec.Behavior, t.Spec.SSAName, t.Spec.NoSafety
 		res.Opaque = map[string]bool{}
 		for _, n := range t.Spec.OpaqueFns {
 			res.Opaque["f!"+n] = true
@@ -290,6 +326,7 @@ func runTarget(p *Loaded, t Target, selRet int) (res *TargetResult) {
 				target = fn
 			}
 		}
+		x.specOverride = map[*ssa.Function]*FuncSpec{target: t.Spec}
 		x.calleeMode = append(x.calleeMode, &calleeCtx{fn: target, prove: true})
 	} else {
 		h = t.Lemma.Fn
@@ -320,6 +357,8 @@ func runTarget(p *Loaded, t Target, selRet int) (res *TargetResult) {
 }
 
 // ---------------- reporting ----------------
+
+var replayDirOverride string
 
 type knownFinding struct {
 	Prop, Obl, What string
@@ -395,6 +434,9 @@ func report(p *Loaded, verif, prop, tier string, seed int, pc *PropConfig, resul
 	usedC := map[string]bool{}
 	notes := map[string]bool{}
 	replayDir := filepath.Join(verif, "replays")
+	if replayDirOverride != "" {
+		replayDir = replayDirOverride
+	}
 	replays := 0
 	noReplay := os.Getenv("GOVC_NO_REPLAY") != ""
 	for _, r := range results {
@@ -593,6 +635,9 @@ func report(p *Loaded, verif, prop, tier string, seed int, pc *PropConfig, resul
 	}
 	for _, l := range knownLines {
 		fmt.Println(l)
+	}
+	for _, f := range failures {
+		fmt.Println("FAILED-OBLIGATION:", f)
 	}
 	for _, l := range violLines {
 		fmt.Println(l)
